@@ -41,6 +41,7 @@ def make_profile(prop, rng, tier):
     p['magnitude'] = rng.choices(['nL-uL', 'uL-mL', 'mL-L'], weights=[2, 5, 2])[0]
     p['round_numbers'] = rng.random() < 0.5
     p['list_w'] = rng.choice([1, 1, 1, 4])
+    p.setdefault('p_trace', rng.choice([0.03, 0.03, 0.3]))
     p['plate_size'] = rng.choices(['small', 'medium', 'large'], weights=[12, 3, 1 if tier == 'thorough' else 0.3])[0]
     p['cache_policy'] = rng.choice(['never', 'always', 'random'])
     lo, hi = (8, 25) if tier == 'quick' else (10, 40)
